@@ -356,3 +356,16 @@ func (m *Machine) cutCall(fn *ssa.Function, args []Value) (Value, bool) {
 	}
 	return out, true
 }
+
+func init() {
+	extraHarness = append(extraHarness, func(e *Engine) {
+		e.intrinsics[mainPath+".verifTempFile"] = func(m *Machine, fr *frame, a []Value) Value {
+			name := strConcat(mkStr("/verif-tmp/"), argStr(a[0]))
+			if m.fs == nil {
+				m.fs = map[string]*fsEntry{}
+			}
+			m.fs[name.Term().SMT()] = &fsEntry{kind: "file", content: argStr(a[1])}
+			return name
+		}
+	})
+}
